@@ -48,6 +48,108 @@ MATERIALISES = {"slice": True, "row": True, "__len__": True, "rowcount": True, "
                 "take": False, "select": False}
 
 
+# ----------------------------------------------------------------------------- pass 6: the caller's argument object
+
+ARG_KINDS = ("bare", "list", "set", "tuple")  # what the caller may pass for a sequence argument (0..3 in the generated table)
+ARG_PARAMS = {"collect": "columns", "select": "attributes", "filter": "mask", "take": "indexes"}
+MUTATORS = ("append", "extend", "insert", "pop", "remove", "clear", "sort", "reverse", "add", "discard", "update", "fill", "put", "resize",
+            "__setitem__", "__delitem__", "difference_update", "intersection_update", "symmetric_difference_update")
+FRESH_CALLS = ("list", "sorted", "tuple", "set", "frozenset", "numpy.array", "numpy.asarray", "reversed")
+PINNED_ARG_WRITES = {op: [False] * len(ARG_KINDS) for op in ARG_PARAMS}
+
+
+def arg_written(fn, param):
+    """For each kind of argument object: does the method write into the object the caller passed?  The statements of
+    the method are walked in order; `param` starts bound to the caller's object; `if [not] isinstance(param, (...))`
+    chains are decided per kind; `param = [param]` / `param = list(param)` / a comprehension re-binds it to a new
+    object; `x = param` makes an alias; a subscript assignment / deletion / augmented assignment through the name or
+    an alias, or a mutating method called on one, is a write.  Anything else that assigns the name degrades."""
+    kinds = list(ARG_KINDS)
+    caller = {k: True for k in kinds}      # is `param` still the caller's object?
+    alias = {}                             # other name -> {kind: is it the caller's object?}
+    written = {k: False for k in kinds}
+
+    def isinstance_test(t, kind):
+        if isinstance(t, ast.UnaryOp) and isinstance(t.op, ast.Not):
+            r = isinstance_test(t.operand, kind)
+            return None if r is None else (not r)
+        if isinstance(t, ast.Call) and ast.unparse(t.func) == "isinstance" and len(t.args) == 2 and ast.unparse(t.args[0]) == param:
+            names = [ast.unparse(e) for e in t.args[1].elts] if isinstance(t.args[1], ast.Tuple) else [ast.unparse(t.args[1])]
+            if not all(n in ("list", "set", "tuple", "frozenset", "str", "int") for n in names):
+                raise KeyError("isinstance against " + ", ".join(names))
+            return kind in names
+        return None
+
+    def fresh(value):
+        if isinstance(value, (ast.List, ast.ListComp, ast.Tuple, ast.SetComp, ast.Set)):
+            return True
+        if isinstance(value, ast.Call) and ast.unparse(value.func) in FRESH_CALLS:
+            return True
+        return False
+
+    def writes_in(node, ks):
+        for n in ast.walk(node):
+            targets = []
+            if isinstance(n, ast.Assign):
+                targets = n.targets
+            elif isinstance(n, (ast.AugAssign, ast.AnnAssign)):
+                targets = [n.target]
+            elif isinstance(n, ast.Delete):
+                targets = n.targets
+            hit = []
+            for t in targets:
+                if isinstance(n, ast.AugAssign) and isinstance(t, ast.Name):
+                    hit.append(t.id)  # `x += [...]` extends a list in place
+                for sub in ast.walk(t):
+                    if isinstance(sub, ast.Subscript) and isinstance(sub.value, ast.Name):
+                        hit.append(sub.value.id)
+            if isinstance(n, ast.Call) and isinstance(n.func, ast.Attribute) and n.func.attr in MUTATORS and isinstance(n.func.value, ast.Name):
+                hit.append(n.func.value.id)
+            for name in hit:
+                for k in ks:
+                    if (name == param and caller[k]) or (name in alias and alias[name][k]):
+                        written[k] = True
+
+    def run(stmts, ks):
+        for st in stmts:
+            if isinstance(st, ast.If):
+                verdicts = {k: isinstance_test(st.test, k) for k in ks}
+                if all(v is not None for v in verdicts.values()):
+                    run(st.body, [k for k in ks if verdicts[k]])
+                    run(st.orelse, [k for k in ks if not verdicts[k]])
+                    continue
+            if isinstance(st, ast.Assign) and len(st.targets) == 1 and isinstance(st.targets[0], ast.Name):
+                tgt, val = st.targets[0].id, st.value
+                if tgt == param:
+                    if fresh(val):
+                        writes_in(val, ks)
+                        for k in ks:
+                            caller[k] = False
+                        continue
+                    raise KeyError("`%s` is assigned something that is neither a new list nor a copy" % param)
+                if isinstance(val, ast.Name) and (val.id == param or val.id in alias):
+                    src_ = caller if val.id == param else alias[val.id]
+                    alias.setdefault(tgt, {k: False for k in kinds})
+                    for k in ks:
+                        alias[tgt][k] = src_[k]
+                    continue
+                if tgt in alias:
+                    for k in ks:
+                        alias[tgt][k] = False
+            for n in ast.walk(st):
+                if n is not st and isinstance(n, (ast.Assign, ast.AugAssign, ast.NamedExpr)):
+                    tg = n.targets if isinstance(n, ast.Assign) else [n.target]
+                    if any(isinstance(t, ast.Name) and t.id == param for t in tg):
+                        raise KeyError("`%s` is re-bound inside a nested statement" % param)
+            writes_in(st, ks)
+
+    if param not in [a.arg for a in fn.args.args]:
+        raise KeyError("parameter " + param)
+    run(fn.body, kinds)
+    return [bool(written[k]) for k in kinds]
+
+
+
 # ----------------------------------------------------------------------------- comprehensions -> Lean list terms
 
 
@@ -491,6 +593,10 @@ def generate(o):
     srl = o.item("frame.select.reads_late", select_reads_late, PINNED["select.reads_late"])
     cc = o.item("frame.collect.clamp", collect_clamp, PINNED["collect.clamp"])
     cb = o.item("frame.collect.limit_bits", collect_limit_bits, PINNED["collect.limit_bits"])
+    aw = {}
+    for _op, _param in ARG_PARAMS.items():
+        aw[_op] = o.item("frame.argument_written." + _op, (lambda _op=_op, _param=_param: arg_written(find_function(src.tree, _op, "DataFrame"), _param)),
+                         PINNED_ARG_WRITES[_op])
     # is every definition the hand-written reference one? (then a model/mirror difference can only be a harness fault)
     as_pinned = (v["slice.neg_test"] == PINNED["slice.neg_test"] and v["slice.neg_start"] == PINNED["slice.neg_start"]
                  and v["slice.stop"] == PINNED["slice.stop"] and v["slice.zero"] == PINNED["slice.zero_length_test"]
@@ -561,5 +667,13 @@ def generate(o):
     text += "/-- `take`: row `i` is kept iff … -/\n"
     text += "def takeTest (i : Int) (indexes : List Int) : Prop := %s\n" % tt
     text += "instance (i : Int) (indexes : List Int) : Decidable (takeTest i indexes) := by unfold takeTest; infer_instance\n"
+    text += "/-- does the method write into the object the caller passed as its sequence argument (`collect(columns)`, `select(attributes)`,\n"
+    text += "`filter(mask)`, `take(indexes)`), for an argument that is 0 = a bare value, 1 = a list, 2 = a set, 3 = a tuple?  (From the statements\n"
+    text += "that handle the argument: isinstance branches, re-binding to `[x]` / `list(x)`, aliases, subscript assignments, mutating calls.) -/\n"
+    text += "def writesCallerArgument : String → Nat → Bool\n"
+    for _op in sorted(aw):
+        for _i, _w in enumerate(aw[_op]):
+            text += "  | %s, %d => %s\n" % (json_str(_op), _i, "true" if _w else "false")
+    text += "  | _, _ => false\n"
     text += "end Gen.Frame\n"
     o.files["FrameExpr.lean"] = text
